@@ -499,3 +499,6 @@ NONTRIVIAL = "one obligation per skip loop, per look-ahead attempt / fall-back, 
 EXPLANATION += (
     ' R11 shares C01-R2 (the binding-power table is the documented one: redundant parentheses repeat that grouping). R12 shares C07-R5/R5b (renderer positions), C13-R6 (encode buffers hold four bytes) and C07-R10 (front-end memory does not depend on where the line breaks are): a re-layout moves the text diagnostics quote and the amount of text on a line, and must change neither a crash nor the memory the scanner takes.'
 )
+EXPLANATION += (
+    ' Round 6: R13 no source byte is compared with a space or tab constant (one notion of blank: is_ascii_whitespace); R14 shares C14-R2 (a script on stdin is read to the end and validated once); R12 also shares C07-R5c.'
+)
